@@ -127,7 +127,14 @@ func runSolver(ctx context.Context, sc solverCfg, file string, timeoutS int) (st
 	_ = cmd.Run()
 	ms = time.Since(t0).Milliseconds()
 	out = buf.String()
-	first := strings.TrimSpace(strings.SplitN(out, "\n", 2)[0])
+	first := ""
+	for _, ln := range strings.Split(out, "\n") {
+		// the verdict is the first line that is not a solver warning
+		if t := strings.TrimSpace(ln); t != "" && !strings.HasPrefix(t, "WARNING") {
+			first = t
+			break
+		}
+	}
 	switch first {
 	case "unsat", "sat", "unknown":
 		status = first
